@@ -13,6 +13,7 @@ import json
 
 from .engine import Violation, SetupRejected, Unresolvable
 from .lang import Lang, canon, gen_spec, small_fixed_specs, corpus
+import copy as _copy
 from .world import BaseWorld, call, weighted
 from . import findings
 
@@ -65,6 +66,19 @@ def new_run(rng, tier):
                  'rightMultiplicity': {'min': 0, 'max': None}})
         src = 'gen'
     desc = {'spec': spec, 'source': src}
+    if src == 'gen' and rng.random() < 0.25:
+        # a specification built in Python (or YAML with anchors) may share one list or dict
+        # between two steps of an asset; the world re-creates the sharing on its private copy
+        cands = [(i, [j for j, st in enumerate(a['attackSteps']) if st['reaches']])
+                 for i, a in enumerate(spec['assets'])]
+        cands = [(i, js) for i, js in cands if len(js) >= 2]
+        if cands:
+            i, js = rng.choice(cands)
+            j1, j2 = rng.sample(js, 2)
+            # same content first (so that the language stays the one described by the spec) ...
+            spec['assets'][i]['attackSteps'][j2]['reaches'] = copy.deepcopy(
+                spec['assets'][i]['attackSteps'][j1]['reaches'])
+            desc['alias'] = [i, j1, j2]         # ... then the same *object* inside the world
     if src == 'gen' and rng.random() < 0.35:
         # a second, different language that lives in the same process and (the
         # generator draws from one pool of names) shares asset type names with the first
@@ -93,6 +107,14 @@ class World(BaseWorld):
         self.S0 = canon(desc['spec'])
         self.L = Lang(copy.deepcopy(desc['spec']))
         self.spec = copy.deepcopy(desc['spec'])     # the shared dict object
+        if desc.get('alias'):
+            i, j1, j2 = desc['alias']
+            try:
+                steps = self.spec['assets'][i]['attackSteps']
+                steps[j2]['reaches'] = steps[j1]['reaches']        # one object, two steps
+                self.count('probe:spec_with_shared_subobjects')
+            except (IndexError, KeyError, TypeError):
+                pass
         self.expected = {t: {n: _norm_answer(s) for n, s in self.L.steps(t).items()}
                          for t in self.L.order}
         self.first = {}
@@ -327,6 +349,10 @@ class World(BaseWorld):
                 if asset is None:
                     raise Violation('C03.fold', f'language graph has no asset {t}')
                 ans = {}
+                names = [st.name for st in asset.attack_steps]
+                if len(set(names)) != len(names):
+                    raise Violation('C03.stable', f'assets: {t} lists attack steps more than once: '
+                                                  f'{sorted(n for n in set(names) if names.count(n) > 1)}')
                 for st in asset.attack_steps:
                     if isinstance(getattr(st, 'attributes', None), dict):
                         ans[st.name] = _norm_answer(st.attributes)
